@@ -14,7 +14,7 @@ from typing import Dict, List, Optional, Tuple
 import common
 import spec as S
 
-GEN_VERSION = "12"
+GEN_VERSION = "13"
 
 STRUM_DERIVES = ["EnumString", "Display", "AsRefStr", "IntoStaticStr", "VariantNames", "EnumIter", "EnumCount", "FromRepr",
                  "VariantArray", "EnumDiscriminants", "EnumIs", "EnumTryAs", "EnumMessage", "EnumProperty", "EnumTable",
@@ -477,6 +477,32 @@ def family_placeholders(start: int) -> List[E]:
     return out
 
 
+def family_big(start: int, sizes: List[int]) -> List[E]:
+    """Family F: unusually large enums, long identifiers, every unit-compatible derive at once."""
+    out = []
+    for i, n in enumerate(sizes):
+        vs = []
+        for j in range(n):
+            base = ["Alpha", "BravoCharlie", "delta_echo", "FOXTROT", "Golf2Hotel", "IndiaJULIETKilo", "Lima_", "Mike9November10"][j % 8]
+            name = "%s%d" % (base, j) if j % 5 else "%s%sVeryLongIdentifierThatGoesOnAndOnAndOnForQuiteAWhile%d" % (base, base, j)
+            v = V(name)
+            if j % 11 == 7:
+                v.attrs = [["disabled"]]
+            elif j % 13 == 5:
+                v.attrs = [["serialize = %s" % rstr("big%d_%d" % (n, j)), "serialize = %s" % rstr("BIG%d_%d_longer" % (n, j))]]
+            elif j % 17 == 3:
+                v.attrs = [["to_string = %s" % rstr("Big %d/%d" % (n, j)), "message = %s" % rstr("m%d" % j), "props(k = %d, s = %s)" % (j, rstr("v%d" % j))]]
+            if j % 19 == 4:
+                v.docs = [" doc %d" % j]
+            vs.append(v)
+        style = [None, "snake_case", "SCREAMING-KEBAB-CASE"][i % 3]
+        attrs = [["serialize_all = %s" % rstr(style)]] if style else []
+        out.append(E("Big%04d" % (start + i), "big", ["EnumString", "Display", "AsRefStr", "IntoStaticStr", "VariantNames", "EnumIter", "EnumCount", "FromRepr", "VariantArray",
+                                                      "EnumIs", "EnumTable", "EnumDiscriminants", "EnumMessage", "EnumProperty"], vs, attrs=attrs, std_derives=["Clone", "Copy", "Debug", "PartialEq"],
+                     repr="u16" if i % 2 else None))
+    return out
+
+
 def family_casing(rng: random.Random, start: int, idents: List[str], styles: List[Optional[str]], per_enum: int = 8) -> List[E]:
     """Family C: identifier dictionary x every accepted style string."""
     out = []
@@ -781,13 +807,14 @@ def all_short_identifiers(maxlen: int = 5) -> List[str]:
 def generate(tier: str, seed: int) -> List[E]:
     rng = random.Random(1000003 * seed + 17)
     es: List[E] = []
-    es += family_strings(rng, 70 if tier == "quick" else 400, 1)
-    es += family_unit_strings(rng, 24 if tier == "quick" else 120, 1)
+    es += family_strings(rng, 70 if tier == "quick" else 1000, 1)
+    es += family_unit_strings(rng, 24 if tier == "quick" else 240, 1)
+    es += family_big(1, [33, 257] if tier == "quick" else [33, 64, 129, 257, 600])
     es += family_overlap(1)
     es += family_placeholders(1)
     es += family_casing(rng, 1, IDENT_DICT, STYLES)
     es += family_iter(rng, 1, tier == "thorough")
-    es += family_messages(rng, 1, 24 if tier == "quick" else 96)
+    es += family_messages(rng, 1, 24 if tier == "quick" else 240)
     es += family_discriminants(rng, 1)
     es += family_try_as(1)
     if tier == "thorough":
